@@ -328,13 +328,21 @@ class AbstractDiagram(metaclass=abc.ABCMeta):
 
         bundle: dict[str, t.Any] = {}
         for mime, conv in formats.items():
-            with contextlib.suppress(KeyError):
-                bundle[mime] = self.__load_cache([conv])
+            try:
+                chain = list(_walk_converters(conv))
+                bundle[mime] = self.__load_cache(chain)
+            except KeyError:
+                pass
+            except Exception:
+                LOGGER.exception("Failed converting diagram with %r", conv)
 
         if bundle:
             return bundle
 
         try:
+            if self._model.diagram_cache is not None:
+                if not self._allow_render:
+                    raise RuntimeError(f"Diagram not in cache: {self.name}")
             render = self.__render_fresh({})
         except Exception as err:
             # fall back to the error image, like ``as_<format>`` does
